@@ -19,18 +19,28 @@ def skeleton_cases(ck):
         small = [c for c in allc if count_nodes(c[1]) <= 3]
         big = [c for c in allc if count_nodes(c[1]) > 3]
         allc = small + ck.rng.sample(big, min(len(big), 1500))
-    n_rand = 300 if ck.tier == "quick" else 6000
+    n_rand = 700 if ck.tier == "quick" else 8000
     for _ in range(n_rand):
         pl = ck.rng.choice(PLACEMENTS)
-        allc.append((pl, gen_skel.random_skeleton(ck.rng, ck.rng.randrange(5, 11), 4, pl in ("function", "method"))))
+        allc.append((pl, gen_skel.random_skeleton(ck.rng, ck.rng.randrange(4, 10), 4, pl in ("function", "method"))))
     return allc
+
+
+def k1_extra_cases(ck):
+    """structure-only cases (cheap): many more random skeletons for the tree comparison K1"""
+    out = []
+    n = 5000 if ck.tier == "quick" else 60000
+    for _ in range(n):
+        pl = ck.rng.choice(PLACEMENTS)
+        out.append((pl, gen_skel.random_skeleton(ck.rng, ck.rng.randrange(4, 9), 4, pl in ("function", "method"))))
+    return out
 
 
 def count_nodes(block):
     n = 0
     for s in block:
         n += 1
-        if s[0] in ("if", "while", "for"):
+        if s[0] in ("if", "while", "for", "def"):
             n += count_nodes(s[2]) + count_nodes(s[3])
     return n
 
@@ -95,11 +105,21 @@ def main(argv):
     # K1: emitted tree of the model = emitted tree of the converter
     if b["driver_ok"]:
         pairs = []
+        by_src = {}
         for idx, (pl, blk) in enumerate(cases):
             src = gen_skel.source(blk, pl)
+            by_src[src] = (pl, blk)
             pairs.append((src, CFG4[idx % 4]))
             if ck.tier == "thorough":
                 pairs.append((src, CFG4[(idx + 1) % 4]))
+        seen_src = {p[0] for p in pairs}
+        for idx, (pl, blk) in enumerate(k1_extra_cases(ck)):
+            src = gen_skel.source(blk, pl)
+            if src not in seen_src:
+                seen_src.add(src)
+                by_src[src] = (pl, blk)
+                pairs.append((src, CFG4[idx % 4]))
+                ck.case(f"K1|{pl}|{CFG4[idx % 4]}|{src}", nontrivial=True)
         for src, cfg, ok, detail in lower_common.compare(ol, pairs):
             if ok:
                 ck.count("K1_agree")
@@ -107,6 +127,29 @@ def main(argv):
                 k_bad.append((src, cfg, detail))
     else:
         ck.broken.append("lean: the driver (model) does not build")
+    if k_bad and not failing:
+        # failing-input search, step (ii): the inputs on which model and code disagree, on the real code,
+        # under every option combination and more schedules
+        cands = []
+        for src, cfg, detail in k_bad[:150]:
+            cands.append(src)
+            if src in by_src:
+                pl, blk = by_src[src]
+                cands.append(gen_skel.source(gen_skel.number(gen_skel.densify(blk)), pl))
+        for src in cands:
+            hit = False
+            for un in ("ast.unparse", "oneliner"):
+                for (w, i) in CFG4:
+                    why, text, s = trace_check(ol, src, (un, w, i), list(range(1, 13)))
+                    ck.count("search_runs", 12)
+                    if why:
+                        failing.append((src, (un, w, i), why, text, s))
+                        hit = True
+                        break
+                if hit:
+                    break
+            if len(failing) >= 3:
+                break
     if k_bad:
         ck.broken.append(f"correspondence K1(lowerFull = convert): {len(k_bad)} skeletons differ, first: {k_bad[0][0]!r} {k_bad[0][1]}: {k_bad[0][2][:300]}")
     failing.sort(key=lambda f: len(f[0]))
